@@ -579,3 +579,54 @@ def known_nonnegative(cfg, local, _depth=0):
             return False
         return False
     return False
+
+
+# ------------------------------------------------------------ taint (T6) ----
+
+TAINT_ADTS = ("rssl_ir::ir_types::Constant::", "rssl_ir::ir_types::RestrictedConstant::", "rssl_ast::ast_expressions::Literal::",
+              "rssl_text::tokens::Token::Literal", "rssl_ir::ir_types::TypeLayer::Array")
+
+
+def tainted_locals(cfg, extra_sources=()):
+    """Locals that (transitively) hold a number written by the user: payloads of literal tokens, AST literals,
+    IR constants, array lengths. Forward propagation through copies, casts, arithmetic and call results."""
+    taint = set()
+
+    def place_tainted(p):
+        if p is None:
+            return False
+        if _place_local(p) in taint:
+            return True
+        for pr in _place_proj(p):
+            if isinstance(pr, dict) and "f" in pr and pr.get("of", "").startswith(TAINT_ADTS):
+                return True
+        return False
+
+    def operand_tainted(op):
+        return place_tainted(op_place(op))
+    changed = True
+    n = 0
+    while changed and n < 50:
+        changed = False
+        n += 1
+        for b in cfg.blocks:
+            for s in b["s"]:
+                d = _place_local(s["d"])
+                if d in taint:
+                    continue
+                ops = cfg.stmt_operands(s)
+                if any(operand_tainted(o) for o in ops):
+                    taint.add(d)
+                    changed = True
+            t = b["term"]
+            if t["t"] == "Call":
+                d = _place_local(t["d"])
+                if d not in taint:
+                    cal = cfg.callee(t) or ""
+                    if any(operand_tainted(a) for a in t["args"]) or any(cal.endswith(x) for x in extra_sources):
+                        # results of type-registry / context lookups are not numbers from the user
+                        if short(cal) in ("get_type_layer", "remove_modifier", "get_type", "len", "is_empty", "clone_from"):
+                            continue
+                        taint.add(d)
+                        changed = True
+    return taint
